@@ -7,6 +7,7 @@
   every limit environment and every plan.
 -/
 import Nervus.Proofs.PlanOps
+import Nervus.Proofs.WriteOps
 import Nervus.Model.PlanInst
 namespace Nervus.Props.C22
 open Nervus Nervus.PlanOps Nervus.PlanInst
@@ -113,6 +114,42 @@ theorem err_reported (S : Sem χ ρ ν ε κ α) (Q : Quirks) (hq : Q.forwardsEr
   cases hex : execute S Q L params p with
   | error e => exact ⟨e, rfl⟩
   | ok rows => rw [never_swallows S Q hq L params p rows hex h hmem] at hbad; cases hbad
+
+/-! ### write statements (Model/WriteOps.lean: `execute_write_with_rows`, strict and staged) -/
+
+/-- an error of an earlier stage of a write statement is the statement's error: a staged read
+    clause, a write clause and FOREACH all fail with the error of the stage below them -/
+theorem write_err_forwarded {ω τ : Type} (S : Sem χ ρ ν ε κ α) (Q : Quirks) (L : LimEnv ε) (W : WSem ω ρ ε τ)
+    (site : Site) (env : ρ) (inp : WPlan χ ρ ε α ω) (t : τ) (e : ε)
+    (h : execW S Q L W (.left site) env inp t = .error e) :
+    (∀ op, execW S Q L W site env (.stage op inp) t = .error e) ∧
+    (∀ w, execW S Q L W site env (.write w inp) t = .error e) ∧
+    (∀ list var sub, execW S Q L W site env (.foreach list var sub inp) t = .error e) :=
+  ⟨fun op => execW_stage_input_error S Q L W site env op inp t e h,
+   fun w => execW_write_input_error S Q L W site env w inp t e h,
+   fun list var sub => execW_foreach_input_error S Q L W site env list var sub inp t e h⟩
+
+/-- a read clause inside a write statement that answers `Ok`: the stage below answered `Ok rows`,
+    and while the clause ran over those rows nothing handed over anywhere in its operator tree was
+    an `Err` (the read-side theorem applies to every stage) -/
+theorem write_stage_never_swallows {ω τ : Type} (S : Sem χ ρ ν ε κ α) (Q : Quirks) (hq : Q.forwardsErr)
+    (L : LimEnv ε) (W : WSem ω ρ ε τ) (site : Site) (env : ρ) (op : Plan χ ρ ε α → Plan χ ρ ε α)
+    (inp : WPlan χ ρ ε α ω) (t t1 : τ) (n : Nat) (out : List ρ)
+    (h : execW S Q L W site env (.stage op inp) t = .ok (n, out, t1)) :
+    ∃ rows, execW S Q L W (.left site) env inp t = .ok (n, rows, t1) ∧
+      ∀ x ∈ trace false S Q L (.inner site) env (op (.scan rows))
+          (driverDemand (runL S Q L (.inner site) env (op (.scan rows)))), Item.isOk x.item = true := by
+  obtain ⟨rows, hi, hc⟩ := execW_stage_ok_inv S Q L W site env op inp t t1 n out h
+  refine ⟨rows, hi, ?_⟩
+  have hall : allOk (runL S Q L (.inner site) env (op (.scan rows))) = true := (collect_ok_iff _).1 ⟨out, hc⟩
+  exact trace_ok S Q hq L _ _ env _ (allOk_take _ _ hall)
+
+omit [DecidableEq κ] in
+/-- a write clause stops at the first row whose write fails, with that error -/
+theorem write_row_error {ω τ : Type} (W : WSem ω ρ ε τ) (w : ω) (pre : List ρ) (r : ρ) (post : List ρ) (n m : Nat)
+    (t t' : τ) (e : ε) (hpre : writeRows W w pre n t = .ok (m, t')) (hr : W.apply w r t' = .error e) :
+    writeRows W w (pre ++ r :: post) n t = .error e :=
+  writeRows_error W w pre r post n t m t' e hpre hr
 
 end
 
